@@ -24,8 +24,8 @@ CHECKS = {
 "C11": dict(text="Seeded exploration of kdtree call histories under a simulated process pool (real forked workers, seeded take/deliver schedule: reordering, slow and idle workers) over n_cpu 1..16, compression 1..25, max_returns, three modes; differential oracle against the n_cpu=1/compression=1 call and a brute-force true-neighbour model for max_returns; minimised replayable traces.",
             note="Trusted: SimPool dispatcher fidelity (cross-checked against the real multiprocessing.Pool on sampled configurations each run), fork start method, pure-Python distance model. Sampling, not proof.",
             tech="deterministic simulation: SimPool seeded scheduler over real forked workers + configuration swarm", ref="3.2"),
-"C17": dict(text="Seeded exploration of the NumPy global random stream (seeded draws, boundary uniforms 0 and 1-2^-53 injected at the seam) through pipelines of subsample/downsample/powerlaw_sample/powerlaw_mle_alpha with conservation/bound invariants on every draw, plus exact-hypergeometric uniformity tests with a fixed false-alarm bound < 1e-8.",
-            note="Trusted: NumPy legacy global generator as the seam; Hoeffding bound for the uniformity statistics; own zeta-sum likelihood for the 'exact' fit. The powerlaw_mle_alpha closed-form clauses are deterministic and only evaluated along the way.",
+"C17": dict(text="Seeded exploration of the NumPy global random stream (seeded draws, boundary uniforms 0 and 1-2^-53 injected at the seam) through pipelines of subsample/downsample/powerlaw_sample/powerlaw_mle_alpha with conservation/bound invariants on every draw, plus uniformity tests against the exact hypergeometric law with a fixed total false-alarm bound < 1e-8 (Hoeffding on small fixed configurations, Fisher-combined exact tails on small and deep-repertoire configurations).",
+            note="Trusted: NumPy legacy global generator as the seam; Hoeffding bound and scipy.stats.hypergeom log-tails for the uniformity statistics; own zeta-sum likelihood for the 'exact' fit. The powerlaw_mle_alpha closed-form clauses are deterministic and only evaluated along the way.",
             tech="deterministic simulation of the RNG seam: seeded/boundary draws + invariants + exact-distribution uniformity bound", ref="3.3"),
 "C20": dict(text="Seeded exploration of public-API call histories over a shared heap of caller-owned objects with injected faults (natural raises, callback raise, pool fork failure, packaged-file read error, asynchronous interrupt at an arbitrary pyrepseq line, pool schedules); after every call argument snapshots are compared and the canonical outcome is compared with the same call executed alone in a pristine process.",
             note="Trusted: canonicalisation of results (floats rel. 1e-9, figures reduced to artist-data fingerprints); fork-from-pristine-image equals fresh interpreter; igraph-backed community variants asserted only with both generators seeded; tcrdist/pwseqdist/mafft absent (those calls only appear as calls that raise).",
